@@ -783,21 +783,28 @@ func (m *Manager) computeMedianFee() types.Currency {
 	return *m.txpool.medianFee
 }
 
-func (m *Manager) computeParentMap() map[types.Hash256]int {
+// computeParentMap maps the ID of each element created by a pool transaction to
+// the position of that transaction in m.txpool.txns (v2 == false) or in
+// m.txpool.v2txns (v2 == true). The two slices are indexed independently, so a
+// caller must only use the positions with the slice it asked for.
+func (m *Manager) computeParentMap(v2 bool) map[types.Hash256]int {
 	parentMap := make(map[types.Hash256]int)
-	for index, txn := range m.txpool.txns {
-		for i := range txn.SiacoinOutputs {
-			parentMap[types.Hash256(txn.SiacoinOutputID(i))] = index
+	if !v2 {
+		for index, txn := range m.txpool.txns {
+			for i := range txn.SiacoinOutputs {
+				parentMap[types.Hash256(txn.SiacoinOutputID(i))] = index
+			}
+			for i := range txn.SiafundInputs {
+				parentMap[types.Hash256(txn.SiafundClaimOutputID(i))] = index
+			}
+			for i := range txn.SiafundOutputs {
+				parentMap[types.Hash256(txn.SiafundOutputID(i))] = index
+			}
+			for i := range txn.FileContracts {
+				parentMap[types.Hash256(txn.FileContractID(i))] = index
+			}
 		}
-		for i := range txn.SiafundInputs {
-			parentMap[types.Hash256(txn.SiafundClaimOutputID(i))] = index
-		}
-		for i := range txn.SiafundOutputs {
-			parentMap[types.Hash256(txn.SiafundOutputID(i))] = index
-		}
-		for i := range txn.FileContracts {
-			parentMap[types.Hash256(txn.FileContractID(i))] = index
-		}
+		return parentMap
 	}
 	for index, txn := range m.txpool.v2txns {
 		txid := txn.ID()
@@ -1131,7 +1138,7 @@ func (m *Manager) UnconfirmedParents(txn types.Transaction) []types.Transaction 
 	defer m.mu.Unlock()
 	m.revalidatePool()
 
-	parentMap := m.computeParentMap()
+	parentMap := m.computeParentMap(false)
 	var parents []types.Transaction
 	seen := make(map[int]bool)
 	check := func(id types.Hash256) {
@@ -1184,7 +1191,7 @@ func (m *Manager) V2TransactionSet(basis types.ChainIndex, txn types.V2Transacti
 	m.revalidatePool()
 
 	// get the transaction's parents
-	parentMap := m.computeParentMap()
+	parentMap := m.computeParentMap(true)
 	var parents []types.V2Transaction
 	seen := make(map[int]bool)
 	check := func(id types.Hash256) {
